@@ -89,6 +89,12 @@ def covered_index():
         for s in u.sections:
             if s.kind in ("type", "strtable"):
                 types.add((s.file, s.name))
+            elif s.kind == "fn" and not s.opts.get("assume"):
+                # iterator helpers whose bodies the extractor inlines into this function (`inline_iters`): the unit verifies their text
+                # as part of the caller, a change to one of them changes the verified text
+                for nm in s.opts.get("inline_iters") or []:
+                    if n not in fn_units.setdefault((s.file, nm), []):
+                        fn_units[(s.file, nm)].append(n)
     return fn_units, types, size
 
 
